@@ -118,6 +118,17 @@ CHECKS = {
         design_ref="6.8",
         note=LEVEL_NOTE_COMMON + " The per-metric formulas on top of the merges (and their float rounding) are compared, not proved; the merge theorems are over exact integers.",
     ),
+    "C09": dict(
+        technique="Coq proof over the reals (Rpower/ln/sqrt/acos monotonicity and inverse laws) of the surrogate/correction pairs + evaluation of the compiled surrogate kernels and correction ufuncs against float64 references, incl. a sweep of float32 bit patterns (all 2^31 non-negative patterns in the thorough tier)",
+        text=("Theorems in coq/props/C09.v: for similarity core s > 0, 1 - 2^-(-log2 s) = 1 - s (cosine, dot, jaccard), sqrt(1 - 2^-(-log2 s)) = "
+              "sqrt(1 - s) (hellinger), 1 - acos(2^-(-log2 s))/pi = 1 - acos(s)/pi (true_angular), sqrt(d*d) = d; the surrogate orders any two "
+              "candidates exactly as the documented metric does (strictly, both directions) for each of these, and squared distances order as "
+              "distances; the corrected value stays in [0,1). On every run the compiled dense and sparse surrogates/corrections are checked on "
+              "structured vectors (inversion, order over all triples, dense/sparse agreement) and the scalar corrections are swept over float32 "
+              "bit patterns for NaN-freedom, monotonicity, range and agreement with the float64 formula."),
+        design_ref="6.9",
+        note=LEVEL_NOTE_COMMON + " Axioms: Coq.Reals (ClassicalDedekindReals.sig_forall_dec, sig_not_dec, FunctionalExtensionality.functional_extensionality_dep, Classical_Prop.classic). Float32 rounding is measured, not proved; strict order is claimed only on the non-saturated domain.",
+    ),
 }
 
 REASON_PENDING = "check not built yet in this round (design in DESIGN.md section 6; no claim is made until the check exists)"
